@@ -142,7 +142,7 @@ PROPS['C16'] = {
     'recheck': 40,
     'rule': ("one evaluation = one seeded scene of 2-4 (thorough: -6) real pthreads, each with an explicit list of 10-25 (-40) operations (composites through fast paths and the general "
              "path, fills, fill_boxes, trapezoids, triangles, glyph runs, region algebra, private setters) on thread-private destinations, regions and glyph caches; four source "
-             "images (one in ten a yuy2/yv12 one) and the main thread's regions (one in six the broken region) are shared read-only after a first use on the main thread; and one explicit schedule: at every scheduling point (API boundary, hooks H2/H3 around the fast "
+             "images (one in ten a yuy2/yv12 one, one in three with another shared image as alpha map) and the main thread's regions (one in six the broken region) are shared read-only after a first use on the main thread; and one explicit schedule: at every scheduling point (API boundary, hooks H2/H3 around the fast "
              "path cache and in _pixman_image_validate, every k-th accessor callback) a decision 'stay' or 'switch to runnable thread j'.  Exactly one thread runs at a time "
              "(futex baton).  Checked: alone = together for every thread, the access ledger of the hooked sites, and (second pass) ThreadSanitizer, to which the baton is "
              "invisible; that pass runs every 20 scenarios in a freshly forked process so that lazily initialised process-wide state is met cold.  Non-trivial = at least 2 context switches taken; distinct = distinct realised interleavings (hash of the (point, from, to) sequence)"),
